@@ -38,8 +38,21 @@ Section Proto2Queue.
        proposal.ConfigurationWatcher      -> (target, Index), (target, Status.Applied.Index) and (target, Status.Proposed.Index)
        configuration.Watcher              -> the configuration id
        mastership.ConfigurationStoreWatcher -> the configuration id *)
-  Definition cfg_wakes (t : N) (c : @config V) : list ctrl :=
-    [CtlProp (t, c_index c); CtlProp (t, c_applied c); CtlProp (t, c_proposed c); CtlCfg t; CtlMaster t].
+  (* ... and the first proposal of the target that is not applied yet (3e4ef79): the watcher walks back from
+     Status.Proposed.Index through PrevIndex to the first proposal whose PrevIndex <= Status.Applied.Index (it reads the
+     proposals when it handles the event; the model reads them at the write) *)
+  Fixpoint first_unapplied (fuel : nat) (w : world) (t applied idx : N) : list ctrl :=
+    match fuel with
+    | O => []
+    | S f => if idx <=? applied then [] else
+             match props w !! (t, idx) with
+             | Some P => if p_prev P <=? applied then [CtlProp (t, idx)]
+                         else if idx <=? p_prev P then [] else first_unapplied f w t applied (p_prev P)
+             | None => [] end
+    end.
+  Definition cfg_wakes (w : world) (t : N) (c : @config V) : list ctrl :=
+    [CtlProp (t, c_index c); CtlProp (t, c_applied c); CtlProp (t, c_proposed c)]
+    ++ first_unapplied (S (N.to_nat (c_proposed c))) w t (c_applied c) (c_proposed c) ++ [CtlCfg t; CtlMaster t].
   (* a proposal event: transaction.ProposalWatcher -> TransactionIndex, proposal.Watcher -> the proposal id *)
   Definition prop_wakes (k : N * N) : list ctrl := [CtlTx (snd k); CtlProp k].
   (* a CONTROLS relation event: connection.TopoWatcher -> the relation id when the source is this node;
@@ -63,8 +76,8 @@ Section Proto2Queue.
     | EPutTx i T => tx_wakes w i T
     | ECreateProp k _ => match props w !! k with Some _ => [] | None => prop_wakes k end   (* AlreadyExists: no event *)
     | EPutProp k _ => prop_wakes k
-    | ECreateCfg t c => match cfgs w !! t with Some _ => [] | None => cfg_wakes t c end
-    | EPutCfg t c => match cfgs w !! t with Some _ => cfg_wakes t c | None => [] end
+    | ECreateCfg t c => match cfgs w !! t with Some _ => [] | None => cfg_wakes w t c end
+    | EPutCfg t c => match cfgs w !! t with Some _ => cfg_wakes w t c | None => [] end
     | EPutValues _ _ | EPutAValues _ _ => []                     (* the path-value maps are not watched *)
     | ERelCreate c t => match rels w !! c with Some _ => [] | None => rel_wakes w c t true end
     | ERelDelete c => match rels w !! c with Some (t, mine) => rel_wakes w c t mine | None => [] end
